@@ -113,6 +113,21 @@ pub fn run(ctx: &Ctx, subjects: &[Box<dyn DynSubject>], seqs: &[SeqEntry], only_
                 rep.nontrivial.insert(crate::report::hash_case(&[t.name(), uu.name()], &v, 0));
             }
             rep.class(if a.dt != b.dt { "cross:type-level-difference" } else if a.dl != b.dl { "cross:layout-only-difference" } else { "cross:same-structure" });
+            // Two types that must be told apart but share both hashes: the header check cannot refuse, and parsing
+            // the bytes of one as the other is not attempted (an invalid discriminant or an absurd length there can
+            // take the whole process down). The collision itself is the counterexample.
+            if differs && a.th == b.th && a.ah == b.ah {
+                let sig = if a.dt != b.dt {
+                    "cross-type-not-refused"
+                } else if under_bound(i) || under_bound(j) {
+                    "align-hash-collision:under-Bound"
+                } else {
+                    "cross-layout-not-refused"
+                };
+                let what = if a.dt != b.dt { "WrongTypeHash" } else { "WrongAlignHash" };
+                rep.failures.push(fail(&ctx.prop, t, uu, sig, format!("bytes of {} read as {}: expected {}, but both hashes coincide ({:x}, {:x}), so the header check accepts them", t.name(), uu.name(), what, a.th, a.ah), Some(v.clone())));
+                break;
+            }
             let Ok((bytes, _)) = ser_bytes(t, &v) else { continue };
             if rep.samples.len() < 10 && kind == "near-miss" {
                 rep.sample(json!({"written_as": t.name(), "read_as": uu.name(), "value": v.show(), "expected": if a.dt != b.dt { "WrongTypeHash" } else if a.dl != b.dl { "WrongAlignHash" } else { "accepted, same value" }}));
